@@ -580,6 +580,31 @@ def replay(ctx):
     ctx.rule = "replay of " + ctx.replay
 
 
+def localise(ctx):
+    """name the lemma (hence the code region) behind each failing file:line reported by make"""
+    seen = set()
+    for name, ok, detail in list(ctx.obligations):
+        if ok:
+            continue
+        for m in re.finditer(r"((?:C16|Gen|Base)/[\w]+\.v):(\d+)", detail or ""):
+            f, ln = m.group(1), int(m.group(2))
+            if (f, ln) in seen:
+                continue
+            seen.add((f, ln))
+            try:
+                lines = open(os.path.join(vlib.COQ, f)).read().split("\n")
+            except OSError:
+                continue
+            lemma = "?"
+            for k in range(min(ln, len(lines)) - 1, -1, -1):
+                mm = re.match(r"\s*(?:Lemma|Theorem|Example|Definition)\s+([\w']+)", lines[k])
+                if mm:
+                    lemma = mm.group(1)
+                    break
+            ctx.notes.append("broken obligation localised: %s line %d, lemma %s (regenerated right-hand side it mentions = code region)" % (f, ln, lemma))
+            ctx.obligation("localised:%s:%s" % (f, lemma), False, "first error at line %d" % ln)
+
+
 # ------------------------------------------------------------------------------------------------ entry
 def run(ctx):
     if ctx.replay:
@@ -593,6 +618,8 @@ def run(ctx):
     if not checker_ok:
         return
     boost = 1 if ok else 2      # a broken obligation: search harder for a concrete failing input
+    if not ok:
+        localise(ctx)
     run_ion_association(ctx, leaves, boost)
     run_pitzer(ctx, boost)
     ctx.rule = ("ion association: random compositions (major salt pair 1e-4..6 molal + rotating minor elements of the database, 0..100 C, pH 4..10) "
